@@ -536,7 +536,31 @@ class Canonicaliser:
         uses_ops = bool(from_ops) and any(isinstance(x, ast.Name) and x.id in from_ops and isinstance(x.ctx, ast.Load)
                                           for x in ast.walk(fn)) and not any(
             isinstance(x, ast.Name) and x.id in from_ops and isinstance(x.ctx, ast.Store) for x in ast.walk(fn))
-        if not (changed or table_hit[0] or uses_ops):
+        aliases0 = self._import_aliases(modname)
+
+        def caller_kind(v):
+            """'methodcaller' / 'attrgetter' / 'itemgetter' when v is a call of that operator function with a constant
+            first argument"""
+            if not (isinstance(v, ast.Call) and v.args and isinstance(v.args[0], ast.Constant)):
+                return None
+            f = v.func
+            nm = None
+            if isinstance(f, ast.Name) and from_ops.get(f.id) in ("methodcaller", "attrgetter", "itemgetter"):
+                nm = from_ops[f.id]
+            elif isinstance(f, ast.Attribute) and isinstance(f.value, ast.Name) and aliases0.get(f.value.id) == "operator" \
+                    and f.attr in ("methodcaller", "attrgetter", "itemgetter"):
+                nm = f.attr
+            if nm == "methodcaller" and isinstance(v.args[0].value, str) and v.args[0].value.isidentifier() \
+                    and all(_simple(a_) for a_ in list(v.args[1:]) + [k_.value for k_ in v.keywords]):
+                return nm
+            if nm == "attrgetter" and len(v.args) == 1 and not v.keywords and isinstance(v.args[0].value, str) \
+                    and all(p_.isidentifier() for p_ in v.args[0].value.split(".")):
+                return nm
+            if nm == "itemgetter" and len(v.args) == 1 and not v.keywords:
+                return nm
+            return None
+        uses_callers = any(caller_kind(x) for x in ast.walk(fn))
+        if not (changed or table_hit[0] or uses_ops or uses_callers):
             return
         # callable locals: `op = operator.add` / `op = lambda …` bound once, used only as `op(…)`
         assigns = {}
@@ -544,18 +568,42 @@ class Canonicaliser:
             if isinstance(n, ast.Assign) and len(n.targets) == 1 and isinstance(n.targets[0], ast.Name):
                 assigns.setdefault(n.targets[0].id, []).append(n)
         aliases = self._import_aliases(modname)
+        from .astutil import source_order
         for name, defs in assigns.items():
-            if len(defs) != 1 or not isinstance(defs[0].value, (ast.Lambda, ast.Attribute)):
+            def callable_value(v):
+                if isinstance(v, ast.Attribute):
+                    return isinstance(v.value, ast.Name) and aliases.get(v.value.id) == "operator"
+                return isinstance(v, ast.Lambda) or bool(caller_kind(v))
+            if not all(callable_value(d.value) for d in defs):
                 continue
-            v = defs[0].value
-            if isinstance(v, ast.Attribute) and not (isinstance(v.value, ast.Name) and aliases.get(v.value.id) == "operator"):
-                continue
+            if any(isinstance(x, ast.Name) and x.id == name and isinstance(x.ctx, ast.Store) and not any(
+                    x is d.targets[0] for d in defs) for x in ast.walk(fn)):
+                continue        # also bound some other way (loop target, with … as)
             uses = [x for x in ast.walk(fn) if isinstance(x, ast.Name) and x.id == name and isinstance(x.ctx, ast.Load)]
             if not uses or not all(isinstance(getattr(u_, "_parent", None), ast.Call) and u_._parent.func is u_ for u_ in self._with_parents(fn, uses)):
                 continue
+            # each use is served by the latest definition before it, which must enclose it (same block or an outer one)
+            rank = source_order(fn)
+            plan, ok = [], True
             for u_ in uses:
-                u_._parent.func = clone(v)
-            self._drop_stmt(fn, defs[0])
+                before = [d for d in defs if rank.get(id(d), 10 ** 9) < rank.get(id(u_), -1)]
+                if not before:
+                    ok = False
+                    break
+                d = max(before, key=lambda x: rank[id(x)])
+                holder, x = getattr(d, "_parent", None), u_
+                while x is not None and x is not holder:
+                    x = getattr(x, "_parent", None)
+                if x is None:
+                    ok = False
+                    break
+                plan.append((u_, d))
+            if not ok:
+                continue
+            for u_, d in plan:
+                u_._parent.func = clone(d.value)
+            for d in defs:
+                self._drop_stmt(fn, d)
         opmap = {"add": ast.Add, "sub": ast.Sub, "mul": ast.Mult, "truediv": ast.Div}
 
         def is_op(f):
@@ -581,6 +629,20 @@ class Canonicaliser:
                         iter=ast.Call(func=ast.Name(id="zip", ctx=ast.Load()), args=[node.args[1], node.args[2]], keywords=[]),
                         ifs=[], is_async=0)])
                     return ast.copy_location(gen, node)
+                # methodcaller("m", a, k=v)(x) is x.m(a, k=v); attrgetter("a.b")(x) is x.a.b; itemgetter(c)(x) is x[c]
+                ck = caller_kind(f)
+                if ck and len(node.args) == 1 and not node.keywords and not isinstance(node.args[0], ast.Starred):
+                    x_ = node.args[0]
+                    if ck == "methodcaller":
+                        return ast.copy_location(ast.Call(func=ast.Attribute(value=x_, attr=f.args[0].value, ctx=ast.Load()),
+                                                          args=list(f.args[1:]), keywords=list(f.keywords)), node)
+                    if ck == "attrgetter":
+                        out_ = x_
+                        for part in f.args[0].value.split("."):
+                            out_ = ast.Attribute(value=out_, attr=part, ctx=ast.Load())
+                        return ast.copy_location(out_, node)
+                    if ck == "itemgetter":
+                        return ast.copy_location(ast.Subscript(value=x_, slice=f.args[0], ctx=ast.Load()), node)
                 if is_op(f) and isinstance(f, ast.Name) and len(node.args) == 2 and not node.keywords:
                     return ast.copy_location(ast.BinOp(left=node.args[0], op=opmap[is_op(f)](), right=node.args[1]), node)
                 if isinstance(f, ast.Lambda) and not node.keywords and len(node.args) == len(f.args.args) \
